@@ -854,6 +854,50 @@ def s_sqrt(a):
                 return s_abs(Sym(s_))
             if e.free_symbols == {s_} and sp.expand(e - (1 - s_ ** 2)) == 0:
                 return s_abs(Sym(c_))
+    if getattr(p, 'sqrt_factor', False) and e.count_ops() < 400:
+        # opt-in (contract option sqrt_factor): radicands that are perfect squares *modulo the defining equations of the
+        # sqrt atoms already on the path* (r_k^2 = radicand_k) are rooted exactly: sqrt(f^2 / g^2) = |f| / |g|
+        try:
+            q_ = sp.together(e)
+            nq_, dq_ = sp.expand(sp.numer(q_)), sp.expand(sp.denom(q_))
+            # the denominator is usually a monomial in the atoms (already a square); only the numerator is rewritten
+            d_even_ = all(m_ % 2 == 0 for _f, m_ in sp.factor_list(dq_)[1])
+            for _k2, (rr_, ee_) in p.sqrt_atoms.items():
+                if nq_.has(rr_):
+                    nq_ = sp.expand(nq_.subs(rr_ ** 2, ee_))
+                if not d_even_ and dq_.has(rr_):
+                    dq_ = sp.expand(dq_.subs(rr_ ** 2, ee_))
+            if nq_.is_rational_function() and not nq_.is_polynomial():
+                t_ = sp.together(nq_)
+                nq_, dq_ = sp.expand(sp.numer(t_)), sp.expand(dq_ * sp.denom(t_))
+            for eq_ in p.equalities():
+                # a quadratic constraint v^2 = (rest) such as the unit-vector hypothesis: normal form in v
+                for v_ in sorted(eq_.free_symbols, key=lambda z_: z_.name):
+                    try:
+                        pe_ = sp.Poly(eq_, v_)
+                    except Exception:
+                        continue
+                    if pe_.degree() == 2 and pe_.coeff_monomial(v_) == 0 and pe_.LC().is_number:
+                        nq_ = sp.expand(sp.rem(nq_, eq_, v_))
+                        dq_ = sp.expand(sp.rem(dq_, eq_, v_))
+                        break
+            cn_, fn_ = sp.factor_list(nq_)
+            cd_, fd_ = sp.factor_list(dq_)
+            if all(m_ % 2 == 0 for _f, m_ in fn_ + fd_) and (fn_ or fd_):
+                c0_ = sp.sqrt(sp.Rational(cn_) / sp.Rational(cd_))
+                if c0_.is_Rational:
+                    num_ = Sym(c0_)
+                    for f_, m_ in fn_:
+                        num_ = num_ * s_abs(Sym(f_)) ** (m_ // 2) if m_ // 2 != 1 else num_ * s_abs(Sym(f_))
+                    for f_, m_ in fd_:
+                        num_ = num_ / (s_abs(Sym(f_)) ** (m_ // 2) if m_ // 2 != 1 else s_abs(Sym(f_)))
+                    return num_
+        except Unsupported:
+            raise
+        except Infeasible:
+            raise
+        except Exception:
+            pass
     big = e.count_ops() > 120 or sum(1 for t_ in sp.Add.make_args(e) if sp.fraction(t_)[1] != 1) > 3
     key = sp.srepr(e) if big else sp.srepr(sp.together(e))
     if key in p.sqrt_atoms:
